@@ -106,16 +106,31 @@ LenCells(i) == IF i # 1 THEN {} ELSE
 \cup { Cell("len:" \o w \o ":obj",
             <<[F0 EXCEPT !.k = "len", !.name = Nm("olen", i), !.ty = w, !.tgt = Nm("Tgt", i)], [F0 EXCEPT !.k = "obj", !.name = Nm("Tgt", i), !.ty = "B"]>>, {"B"}, FALSE) :
          w \in {"u8", "u16", "u32", "u64"} }
+\* fields between the length field and its target must not be counted
+LenGapCells(i) == IF i # 1 THEN {} ELSE
+     { LET tbl == Tables("u16")["payloads"] IN
+       Cell("len:" \o w \o ":match:gap",
+            <<Sc(Nm("key", i), "u16"), [F0 EXCEPT !.k = "len", !.name = Nm("blen", i), !.ty = w, !.tgt = Nm("body", i)],
+              Sc(Nm("seq", i), "u32"), [F0 EXCEPT !.k = "dyn", !.name = Nm("note", i)], MatchF(i, tbl), Sc(Nm("after", i), "u8")>>, AuxOf(tbl), FALSE) :
+         w \in {"u16", "u32"} }
+\cup { Cell("len:u16:obj:gap",
+            <<[F0 EXCEPT !.k = "len", !.name = Nm("olen", i), !.ty = "u16", !.tgt = Nm("Tgt", i)], Sc(Nm("seq", i), "u64"),
+              [F0 EXCEPT !.k = "obj", !.name = Nm("Tgt", i), !.ty = "B"], Sc(Nm("after", i), "u16")>>, {"B"}, FALSE) }
 CkCells(i) ==
      { Cell("ck:" \o w \o ":" \o alg, <<Sc(Nm("pre", i), "u32"), [F0 EXCEPT !.k = "ck", !.name = Nm("ck", i), !.ty = w, !.alg = alg]>>, {}, FALSE) :
          w \in {"u8", "u16", "u32", "u64"}, alg \in {"REG", "NONE"} }
+\* two checksum fields with different algorithms in one packet
+\cup { Cell("ck:two:" \o a1 \o ":" \o a2,
+            <<Sc(Nm("pre", i), "u32"), [F0 EXCEPT !.k = "ck", !.name = Nm("cka", i), !.ty = "u16", !.alg = a1],
+              Sc(Nm("mid", i), "u16"), [F0 EXCEPT !.k = "ck", !.name = Nm("ckb", i), !.ty = "u32", !.alg = a2]>>, {}, FALSE) :
+         a1 \in {"REG", "NONE"}, a2 \in {"REG", "NONE"} }
 \cup { Cell("ck:u16:followed", <<[F0 EXCEPT !.k = "ck", !.name = Nm("ck", i), !.ty = "u16", !.alg = "REG"], Sc(Nm("post", i), "u8")>>, {}, FALSE) }
 RegName(w) == CASE w = "u8" -> "VSUM8" [] w = "u16" -> "VSUM16" [] w = "u32" -> "VSUM32" [] OTHER -> "VSUM64"
 FixAlg(f) == IF f.k = "ck" /\ f.alg = "REG" THEN [f EXCEPT !.alg = RegName(f.ty)] ELSE f
 
 Family(fam, i) == CASE fam = "scalar" -> ScalarCells(i) [] fam = "fix" -> FixCells(i) [] fam = "dyn" -> DynCells(i)
                     [] fam = "obj" -> ObjCells(i) [] fam = "meta" -> MetaCells(i) [] fam = "match" -> MatchCells(i)
-                    [] fam = "len" -> LenCells(i) [] fam = "ck" -> CkCells(i) [] OTHER -> {}
+                    [] fam = "len" -> LenCells(i) \cup LenGapCells(i) [] fam = "ck" -> CkCells(i) [] OTHER -> {}
 Cells(i) == UNION { Family(fam, i) : fam \in CellFacet }
 
 (* -------------------------------- options ------------------------------- *)
